@@ -88,7 +88,8 @@ def reference(spec, times, cache=False):
         i += 1
         e = lines[i].split()
         i += 1
-        out.append({"p": P, "u": [[u[0], u[1]], [u[2], u[3]]], "de": float(e[1]), "steps": int(e[3])})
+        out.append({"p": P, "u": [[u[0], u[1]], [u[2], u[3]]], "de": float(e[1]), "steps": int(e[3]),
+                    "dmin": float(e[7])})
     if len(out) != len(times):
         raise RuntimeError("c01_refnbody: %d of %d outputs" % (len(out), len(times)))
     if cpath:
